@@ -47,6 +47,14 @@ NumeralSign(a, b) == IF DiffPos(a, b) = {} THEN 0
 \* DistanceCmp(t, x, y): 1 if x is closer to t than y, -1 if farther, 0 if equally far
 DistCmp(t, x, y) == NumeralSign(XorStr(t, x), XorStr(t, y))
 
+\* Ordering class "common prefix of the two candidates": when x and y share exactly k leading bits
+\* (k = LeadingEqualBits(x, y) < Len(x)), their distances to any target t agree on those k bits and
+\* the order is decided by bit k+1 alone - whichever of x, y agrees with t there is closer.  The
+\* generator enumerates k (past both proximity caps) with t inside and outside the shared prefix.
+DecidedAtCommonPrefix(t, x, y) ==
+  LET k == LeadingEqualBits(x, y)
+  IN IF k = Len(x) THEN 0 ELSE IF x[k + 1] = t[k + 1] THEN 1 ELSE -1
+
 \* x is strictly closer to t than y
 IsCloser(t, x, y) == DistCmp(t, x, y) = 1
 =============================================================================
